@@ -5,6 +5,7 @@ import (
 	"fmt"
 	"io"
 	"io/fs"
+	"path"
 	"runtime"
 	"strings"
 	"sync"
@@ -46,8 +47,11 @@ func (l *c20Loader) Get(p string) (io.Reader, error) {
 		l.delay()
 	}
 	l.store.mu.Lock()
-	v, ok := l.store.version[p]
-	broken, failing := l.store.broken[p], l.store.failing[p]
+	// the store is keyed by file; a name may denote its file in an unclean spelling ("/./a", "/x/../a"), which this loader -
+	// like any loader that does not rewrite names - hands through as it is
+	file := path.Clean(p)
+	v, ok := l.store.version[file]
+	broken, failing := l.store.broken[file], l.store.failing[file]
 	l.store.mu.Unlock()
 	if !ok || failing {
 		return nil, fmt.Errorf("c20Loader: %s unavailable", p)
@@ -142,7 +146,7 @@ func c20Model() porcupine.Model {
 							}
 						}
 					case "setcontent", "setfail":
-						if in.name == name {
+						if in.name == path.Clean(name) {
 							part = append(part, op)
 						}
 					}
@@ -301,7 +305,8 @@ func (w *c20World) do(client int, in c20In) (c20Out, string) {
 		before := l.okGets[in.name]
 		l.mu.Unlock()
 		w.store.mu.Lock()
-		v0, b0, f0 := w.store.version[in.name], w.store.broken[in.name], w.store.failing[in.name]
+		file := path.Clean(in.name)
+		v0, b0, f0 := w.store.version[file], w.store.broken[file], w.store.failing[file]
 		w.store.mu.Unlock()
 		var text string
 		var uerr error
@@ -335,7 +340,7 @@ func (w *c20World) do(client int, in c20In) (c20Out, string) {
 		out.ver = l.okGets[in.name] - before // exact in sequential histories only
 		l.mu.Unlock()
 		w.store.mu.Lock()
-		stable := v0 == w.store.version[in.name] && b0 == w.store.broken[in.name] && f0 == w.store.failing[in.name]
+		stable := v0 == w.store.version[file] && b0 == w.store.broken[file] && f0 == w.store.failing[file]
 		w.store.mu.Unlock()
 		if stable && !b0 && !f0 {
 			// the name is available and did not change meanwhile: whatever way it is used in this set, it is this set's
@@ -399,9 +404,10 @@ func c20RandOp(r *Rng, nsets int, names []string, concurrent bool) c20In {
 	set := r.Intn(nsets)
 	name := names[r.Intn(len(names))]
 	spelled := name
-	if r.Chance(40) {
+	if r.Chance(40) && !strings.HasPrefix(name, "//") {
 		spelled = strings.TrimPrefix(name, "/") // both spellings denote the same template
 	}
+	file := path.Clean(name) // content operations address the file
 	switch k := r.Intn(20); {
 	case k < 12:
 		return c20In{kind: "fromcache", set: set, name: name, spelled: spelled}
@@ -411,13 +417,23 @@ func c20RandOp(r *Rng, nsets int, names []string, concurrent bool) c20In {
 		if r.Bool() {
 			// several names in one call, in any order, known and unknown ones, spelled both ways
 			pool := []string{"/a", "/b", "/c", "a", "b", "c", "/never-loaded", "/a"}
+			for _, n := range names {
+				pool = append(pool, n)
+				if !strings.HasPrefix(n, "//") {
+					pool = append(pool, strings.TrimPrefix(n, "/"))
+				}
+			}
 			var ns []string
 			for i := 2 + r.Intn(3); i > 0; i-- {
 				ns = append(ns, pool[r.Intn(len(pool))])
 			}
 			in := c20In{kind: "cleanmulti", set: set, rawNames: ns}
 			for _, n := range ns {
-				in.names = append(in.names, "/"+strings.TrimPrefix(n, "/"))
+				if strings.HasPrefix(n, "/") {
+					in.names = append(in.names, n)
+				} else {
+					in.names = append(in.names, "/"+n)
+				}
 			}
 			in.spelled = strings.Join(ns, ",")
 			return in
@@ -429,7 +445,7 @@ func c20RandOp(r *Rng, nsets int, names []string, concurrent bool) c20In {
 		if concurrent {
 			// the content of a file may change while other clients load, clean and look up (Debug is only toggled at barriers)
 			if r.Bool() {
-				return c20In{kind: "setcontent", name: name, arg: int(atomic.AddInt64(&c20VerCounter, 1))}
+				return c20In{kind: "setcontent", name: file, arg: int(atomic.AddInt64(&c20VerCounter, 1))}
 			}
 			return c20In{kind: "fromcache", set: set, name: name, spelled: spelled}
 		}
@@ -437,13 +453,13 @@ func c20RandOp(r *Rng, nsets int, names []string, concurrent bool) c20In {
 		case 0:
 			return c20In{kind: "setdebug", set: set, arg: r.Intn(2)}
 		case 1:
-			return c20In{kind: "setfail", name: name, arg: r.Intn(2)}
+			return c20In{kind: "setfail", name: file, arg: r.Intn(2)}
 		default:
 			v := 2 + r.Intn(50)
 			if r.Chance(20) {
 				v = -v
 			}
-			return c20In{kind: "setcontent", name: name, arg: v}
+			return c20In{kind: "setcontent", name: file, arg: v}
 		}
 	}
 }
@@ -587,6 +603,11 @@ func c20Run(c *C) {
 	r := c.R
 	nsets := 1 + r.Intn(2)
 	names := []string{"/a", "/b", "/c"}[:1+r.Intn(3)]
+	files := append([]string(nil), names...) // content operations address files
+	if r.Chance(40) {
+		// a second, unclean spelling of one of the files: a name of its own as far as the cache is concerned
+		names = append(names, r.Pick([]string{"/./a", "/x/../a", "/a/.", "//a"}))
+	}
 	concurrent := c.Idx%4 != 0
 	var delayRng *Rng
 	var delayMu sync.Mutex
@@ -639,9 +660,9 @@ func c20Run(c *C) {
 				case 0:
 					in = c20In{kind: "setdebug", set: r.Intn(nsets), arg: r.Intn(2)}
 				case 1:
-					in = c20In{kind: "setfail", name: names[r.Intn(len(names))], arg: r.Intn(2)}
+					in = c20In{kind: "setfail", name: files[r.Intn(len(files))], arg: r.Intn(2)}
 				default:
-					in = c20In{kind: "setcontent", name: names[r.Intn(len(names))], arg: 2 + ph*10 + r.Intn(9)}
+					in = c20In{kind: "setcontent", name: files[r.Intn(len(files))], arg: 2 + ph*10 + r.Intn(9)}
 				}
 				w.do(0, in)
 			}
@@ -730,7 +751,7 @@ func c20Run(c *C) {
 func (w *c20World) hasBroken(hist []porcupine.Operation, name string) bool {
 	for _, op := range hist {
 		in := op.Input.(c20In)
-		if in.kind == "setcontent" && in.name == name && in.arg < 0 {
+		if in.kind == "setcontent" && in.name == path.Clean(name) && in.arg < 0 {
 			return true
 		}
 	}
